@@ -17,6 +17,8 @@ FAULTS = [
     ("barrier", "fsync", 1, None), ("write", "pwrite64", 1, None), ("write2", "pwrite64", 2, None),
     ("write2", "pwrite64", 1, None), ("read", "pread64", 1, None), ("readto", "pread64", 1, None),
     ("open", "ftruncate", 1, None), ("open", "ftruncate", 1, 1), ("open", "ftruncate", 1, 5000),
+    # the image is longer than requested: the ftruncate that shrinks it fails
+    ("open", "ftruncate", 1, 40960), ("open", "ftruncate", 1, 16385), ("open", "ftruncate", 1, 20480),
     ("barrier", "pwrite64", 1, None), ("read", "pwrite64", 1, None),
 ]
 ERRNOS = ["EIO", "ENOSPC"]
